@@ -57,6 +57,10 @@ func genSeries(r *rand.Rand) ([]float64, string) {
 		n = 2 + r.Intn(3)
 	case 3:
 		n = pick(r, 127, 128, 129, 255, 256, 257, 384, 512, 640, 1024) // block sizes of chunked algorithms
+		if r.Intn(40) == 0 {
+			n = pick(r, 4096, 10000, 65537, 100001) // the fitness series of a long run
+			c19LongSeries++
+		}
 	default:
 		n = 2 + r.Intn(199)
 	}
@@ -96,7 +100,7 @@ func genSeries(r *rand.Rand) ([]float64, string) {
 	return x, name
 }
 
-var c19OffsetSeries int
+var c19OffsetSeries, c19LongSeries int
 
 type refStats struct {
 	min, max, sum, mean, variance, std, median, q25, q75 float64
@@ -145,8 +149,17 @@ func c19Series(c *Ctx, r *rand.Rand) {
 		maxAbs = math.Max(maxAbs, math.Abs(v))
 	}
 	distinct := map[float64]bool{}
+	sumAbs := 0.0
 	for _, v := range x {
 		distinct[v] = true
+		sumAbs += math.Abs(v)
+	}
+	// the textbook bound of plain summation, for two summations (the library's and the reference's): /error/ <= n u sum/x/ each;
+	// it only matters for series of thousands of values, below that the fixed terms are wider
+	nu := 4 * float64(n+1) * 1.12e-16
+	dMean := 0.0
+	if n > 0 {
+		dMean = nu * sumAbs / float64(n)
 	}
 	for perm := 0; perm < 3; perm++ {
 		data := append([]float64{}, x...)
@@ -207,15 +220,15 @@ func c19Series(c *Ctx, r *rand.Rand) {
 			case k.exact:
 				ok = k.got == k.want || (math.IsNaN(k.got) && math.IsNaN(k.want))
 			case k.name == "StdDev":
-				// sqrt of the accumulated rounding of the mean: (n eps max|x|)
-				ok = relTol(k.got, k.want, 1e-9, 1e-12*maxAbs)
+				// sqrt of the accumulated rounding of the mean: (n eps max|x|), for long series the summation bound below
+				ok = relTol(k.got, k.want, 1e-9+nu, 1e-12*maxAbs+1.5*dMean)
 			case k.isVar:
 				// the rounding of the mean enters the sum of squares as (n eps max|x|)^2
-				ok = relTol(k.got, k.want, 1e-9, 1e-24*maxAbs*maxAbs)
+				ok = relTol(k.got, k.want, 1e-9+nu, 1e-24*maxAbs*maxAbs+2*dMean*dMean)
 			case k.name == "Sum":
-				ok = relTol(k.got, k.want, 1e-12, 1e-15*maxAbs*float64(n+1))
+				ok = relTol(k.got, k.want, 1e-12, 1e-15*maxAbs*float64(n+1)+nu*sumAbs)
 			default:
-				ok = relTol(k.got, k.want, 1e-12, 1e-15*maxAbs*float64(n+1))
+				ok = relTol(k.got, k.want, 1e-12, 1e-15*maxAbs*float64(n+1)+dMean)
 			}
 			if !ok {
 				d := detail()
@@ -232,6 +245,10 @@ func c19Series(c *Ctx, r *rand.Rand) {
 			c.Violate("input-modified", detail(), "the statistics calls modified the caller's slice")
 			return
 		}
+	}
+	if c19LongSeries > 0 {
+		c.Count("series.of_thousands_of_values", c19LongSeries)
+		c19LongSeries = 0
 	}
 	if c19OffsetSeries > 0 {
 		c.Count("series.large_offset", c19OffsetSeries)
